@@ -22,6 +22,7 @@ RULE = ('cases = (a) exhaustive boundary sweep: for bits in {2,3,4,8} every leve
         'per-channel incl. 0 bit) run.  Non-trivial: a tensor with at least two distinct '
         'quantization levels or a zero-scale / 0-bit / boundary element; distinct = (quantizer, '
         'bits, tensor class, seed).')
+RULE += ('  Round 4b: quantizers whose precision was set through the public setter after construction.')
 ASSUMPTIONS = [
     'inequalities are evaluated in float64 on float32 results; comparisons that depend on float32 '
     'round-off (fq == int*scale, error < step, fq <= x) allow 4 ulp',
